@@ -22,11 +22,11 @@ package proto
 
 //@ func consumeSingleTURNFrame
 //@   pure
-//@   ensures [C10:exact] res1 == nil ==> complete(b) && res0 == frameLen(b)
-//@   ensures [C10:prompt] complete(b) ==> res1 == nil
-//@   ensures [C09,C10:progress] res1 == nil ==> 0 < res0 && res0 <= len(b)
-//@   ensures [C10:reject] res1 == errInvalidTURNFrame ==> len(b) >= 20 && !isStun(b) && !isChan(b)
-//@   ensures [C10:errors] res1 == nil || res1 == errInvalidTURNFrame || res1 == errIncompleteTURNFrame
+//@   ensures [C05,C10:exact] res1 == nil ==> complete(b) && res0 == frameLen(b)
+//@   ensures [C05,C10:prompt] complete(b) ==> res1 == nil
+//@   ensures [C05,C09,C10:progress] res1 == nil ==> 0 < res0 && res0 <= len(b)
+//@   ensures [C05,C10:reject] res1 == errInvalidTURNFrame ==> len(b) >= 20 && !isStun(b) && !isChan(b)
+//@   ensures [C05,C10:errors] res1 == nil || res1 == errInvalidTURNFrame || res1 == errIncompleteTURNFrame
 
 //@ func nearestPaddedValueLength
 //@   pure
@@ -107,14 +107,14 @@ package proto
 //@ func (*STUNConn).ReadFrom
 //@   requires bufInv(s) && s.nextConn != nil
 //@   requires base(payload) != base(s.buff) || base(payload) == 0
-//@   ensures [C10:buf-inv] (err == nil || err != errInvalidTURNFrame) ==> bufInv(s)
-//@   ensures [C09,C10:consumes] err == nil ==> n > 0
-//@   ensures [C10:frame] err == nil ==> complete(extendLeft(s.buff, n)) && n == frameLen(extendLeft(s.buff, n))
-//@   ensures [C10:position] err == nil ==> inPos - len(s.buff) == old(inPos - len(s.buff)) + n
-//@   ensures [C10:payload] err == nil ==> forall i :: 0 <= i && i < n && i < len(payload) ==> payload[i] == inStream[old(inPos - len(s.buff)) + i]
-//@   ensures [C10:keep] err != nil ==> inPos - len(s.buff) == old(inPos - len(s.buff)) || err == errInvalidTURNFrame
-//@   ensures [C10:invalid] err == errInvalidTURNFrame ==> n == 0
-//@   at-call invoke net.Conn.Read assert [C10:read-only-when-incomplete] !complete(s.buff)
+//@   ensures [C05,C10:buf-inv] (err == nil || err != errInvalidTURNFrame) ==> bufInv(s)
+//@   ensures [C05,C09,C10:consumes] err == nil ==> n > 0
+//@   ensures [C05,C10:frame] err == nil ==> complete(extendLeft(s.buff, n)) && n == frameLen(extendLeft(s.buff, n))
+//@   ensures [C05,C10:position] err == nil ==> inPos - len(s.buff) == old(inPos - len(s.buff)) + n
+//@   ensures [C05,C10:payload] err == nil ==> forall i :: 0 <= i && i < n && i < len(payload) ==> payload[i] == inStream[old(inPos - len(s.buff)) + i]
+//@   ensures [C05,C10:keep] err != nil ==> inPos - len(s.buff) == old(inPos - len(s.buff)) || err == errInvalidTURNFrame
+//@   ensures [C05,C10:invalid] err == errInvalidTURNFrame ==> n == 0
+//@   at-call invoke net.Conn.Read assert [C05,C10:read-only-when-incomplete] !complete(s.buff)
 //@   assigns s.buff, bytes(s.buff), bytes(payload), inPos
 
 //@      // ---- fixed-size attribute codecs (C11). attr(m, t) is the value slice stun.Message.Get returns (assumed spec).
